@@ -1,4 +1,5 @@
 import RactorModel.Lemmas.Life
+import RactorModel.Lemmas.LifeCell
 
 /-! Simulation of the `Life` actor by the C04 automaton (supervision events about one actor):
 at most one `ActorStarted`, right after `post_start` returned ok; at most one terminal event, of
@@ -1103,9 +1104,10 @@ theorem beginPre_sim (a : Actor) (s : St) (hid : a.id = me) (hc : Core a s) (hph
     exact core_enter_pre hc hse rfl (hc.armed (by simp [hph])) rfl rfl rfl rfl rfl (by simp [hph])
 
 theorem startInstant_sim (a : Actor) (s : St) (supOk : Bool) (hid : a.id = me) (hc : Core a s)
-    (hph : a.phase = .cell) : Sim (next me) (Post me s.sup) s (startInstant a supOk) := by
+    (hph : a.phase = .cell) (hst : a.status = .unstarted) :
+    Sim (next me) (Post me s.sup) s (startInstant a supOk) := by
   unfold startInstant
-  simp only []
+  simp only [hst, ne_eq, not_true_eq_false, ↓reduceIte]
   have hc' : Core ({ a with status := .starting } : Actor) s :=
     hc.congr' (by rfl) (by rfl) (by rfl) (by rfl) (by rfl) (by rfl) (by rfl) (by rfl)
   split
@@ -1160,7 +1162,7 @@ theorem opSpawnInstant_sim (a : Actor) (s : St) (sup : Option Nat) (name : Optio
       exact hnew _ _ rfl rfl rfl rfl rfl rfl (by simpa using hc.localEq) rfl rfl rfl rfl rfl rfl rfl rfl rfl
   · exact ⟨s, rfl, by rw [hsup]; exact h⟩
 
-theorem opPollSpawn_sim (a : Actor) (s : St) (supOk : Bool) (h : Inv me a s) :
+theorem opPollSpawn_sim (a : Actor) (s : St) (supOk : Bool) (h : Inv me a s) (hj : CellOk a) :
     Sim (next me) (Post me a.sup) s (opPollSpawn a supOk) := by
   have hid := h.1
   have hsup := h.2.1
@@ -1168,7 +1170,7 @@ theorem opPollSpawn_sim (a : Actor) (s : St) (supOk : Bool) (h : Inv me a s) :
   unfold opPollSpawn
   split
   · rename_i hph
-    exact startInstant_sim me a s supOk hid (Inv.core me h (by simp [hph])) hph
+    exact startInstant_sim me a s supOk hid (Inv.core me h (by simp [hph])) hph (hj (by simp [hph, Phase.early]))
   · rename_i hph
     have hc := Inv.core me h (by simp [hph])
     split
@@ -1378,12 +1380,12 @@ theorem envOp_sim (a : Actor) (s : St) (op : AOp) (h : Inv me a s) :
   | pollWait w => exact ⟨s, by simp [Actor.envOp, accepts_cons], h⟩
   | _ => exact ⟨s, rfl, h⟩
 
-theorem stepCore_sim (a : Actor) (s : St) (op : AOp) (h : Inv me a s) :
+theorem stepCore_sim (a : Actor) (s : St) (op : AOp) (h : Inv me a s) (hj : CellOk a) :
     Sim (next me) (Post me a.sup) s (a.stepCore op) := by
   cases op with
   | spawn sup name nameFree isLocal supOk => exact opSpawn_sim me a s sup name nameFree isLocal supOk h
   | spawnInstant sup name nameFree isLocal => exact opSpawnInstant_sim me a s sup name nameFree isLocal h
-  | pollSpawn supOk => exact opPollSpawn_sim me a s supOk h
+  | pollSpawn supOk => exact opPollSpawn_sim me a s supOk h hj
   | dropSpawn => exact opDropSpawn_sim me a s h
   | poll => exact Sim.pollMark _ (next_polled me) (opPoll_sim me a s h)
   | abort => exact opAbort_sim me a s h
@@ -1400,9 +1402,9 @@ theorem Core.setSup {a : Actor} {s : St} (p : Option Nat) (hc : Core a s) : Core
     stopTx := hc.stopTx, kill := hc.kill, armed := hc.armed, notify := hc.notify, started := hc.started,
     postStop := hc.postStop }
 
-theorem step_sim (a : Actor) (s : St) (op : AOp) (h : Inv me a s) :
+theorem step_sim (a : Actor) (s : St) (op : AOp) (h : Inv me a s) (hj : CellOk a) :
     Sim (next me) (Inv me) s (a.step op) := by
-  obtain ⟨s1, hacc, hid, hsup, hrest⟩ := stepCore_sim me a s op h
+  obtain ⟨s1, hacc, hid, hsup, hrest⟩ := stepCore_sim me a s op h hj
   rw [step_eq]
   by_cases heq : (a.stepCore op).1.sup = a.sup
   · refine ⟨s1, ?_, hid, by rw [hsup, heq], hrest⟩
@@ -1417,13 +1419,15 @@ theorem step_sim (a : Actor) (s : St) (op : AOp) (h : Inv me a s) :
       · exact Or.inl hd
       · exact Or.inr (hc.setSup _)
 
-theorem run_sim (ops : List AOp) (a : Actor) (s : St) (h : Inv me a s) :
+theorem run_sim (ops : List AOp) (a : Actor) (s : St) (h : Inv me a s) (s01 : Life.C01.St)
+    (h01 : Life.C01.Inv a s01) (hj : CellOk a) :
     ∃ s', accepts (next me) s (a.run ops).2 = .ok s' ∧ Inv me (a.run ops).1 s' := by
-  induction ops generalizing a s with
+  induction ops generalizing a s s01 with
   | nil => exact ⟨s, rfl, h⟩
   | cons op ops ih =>
-    obtain ⟨s1, hacc, hinv⟩ := step_sim me a s op h
-    obtain ⟨s2, hacc2, hinv2⟩ := ih _ s1 hinv
+    obtain ⟨s1, hacc, hinv⟩ := step_sim me a s op h hj
+    obtain ⟨t1, _, h01'⟩ := Life.C01.step_sim a s01 op h01
+    obtain ⟨s2, hacc2, hinv2⟩ := ih _ s1 hinv t1 h01' (cellOk_step a s01 op h01 hj)
     refine ⟨s2, ?_, hinv2⟩
     simp only [Actor.run]
     rw [accepts_append _ _ hacc]
